@@ -86,7 +86,7 @@ def main(run):
     proof_ok = run.prove("Properties/C04.v", ["Corr/EnumCorr.v"])
     shoot = run.build_shoot()
     thorough = run.thorough()
-    total = 420 if thorough else 70
+    total = 1400 if thorough else 70
     chunk = 140
     all_rows, all_mism, stale_rows, stale_mism = [], [], [], []
     feats, keys, evaluations, programs, builds = {}, set(), 0, 0, 0
